@@ -1042,6 +1042,7 @@ type History struct {
 	KeyRemovals [][]*KeyRemoval
 	HookCalls   []*HookCall
 	Startups    []*Startup
+	TrigIncs    []TrigInc
 	Anomalies   []string
 	ShutdownInv int64
 	ShutdownRet int64
@@ -1069,6 +1070,7 @@ func (r *Rig) History(q Quiet) *History {
 		Ops:         append([]*Op(nil), r.ops...),
 		HookCalls:   append([]*HookCall(nil), r.hookCalls...),
 		Startups:    append([]*Startup(nil), r.startups...),
+		TrigIncs:    r.Rep.Incs(),
 		Anomalies:   append([]string(nil), r.anomalies...),
 		ShutdownInv: r.shutdownInv.Load(), ShutdownRet: r.shutdownRet.Load(),
 		End:   r.Clock.Tick(),
